@@ -38,6 +38,9 @@ pub fn run_child_opts<F: FnOnce() -> i32>(f: F, timeout: Duration, continue_stop
         let _ = signal_hook::low_level::raise(libc::SIGURG);
         let _ = signal_hook::low_level::emulate_default_handler(libc::SIGURG);
         let _ = signal_hook::low_level::signal_name(libc::SIGURG);
+        // ... and the registry exists (its global data is created on first use) without owning any signal
+        #[allow(deprecated)]
+        let _ = signal_hook_registry::unregister_signal(libc::SIGURG);
     });
     unsafe {
         let pid = libc::fork();
